@@ -397,14 +397,6 @@ class Frame:
             self.locals[name] = self.tr.newvar(self.prefix + name)
         return self.locals[name]
 
-    def lookup(self, name):
-        f = self
-        while f is not None:
-            if name in f.locals:
-                return f.locals[name]
-            f = f.parent if f.prefix.startswith(getattr(f.parent, 'prefix', '\0') or '\0') and f.is_nested else None
-        return None
-
     is_nested = False
 
 
@@ -986,10 +978,6 @@ class Translator:
 
     def bind_target(self, F, t, v, element=False):
         if isinstance(t, ast.Name):
-            f = F
-            x = None
-            while f is not None and f.is_nested:
-                f = f.parent
             x = F.var(t.id)
             F.containers.discard(x)
             F.arrays.discard(x)
